@@ -1,4 +1,5 @@
 import RsModel.Lemmas.Codec
+import RsModel.Lemmas.DeclMap
 /-!
 # C11 — produced source maps and chunk streams are well-formed
 -/
@@ -52,5 +53,49 @@ theorem c11_encode_charset (ms : List Mapping) : ∀ e, ∀ x ∈ encodeFrom e m
           · simp at hx; rw [hx]; decide
       · exact encFields_charset e m x hx
       · exact ih _ x hx
+
+
+/-! ## the stream clause: announced before use, densely from zero
+
+`DeclOK ns nn evs`: with `ns` sources and `nn` names announced so far, every source / name event of `evs` announces exactly the
+next index (so the announced indices are 0, 1, 2, … without gaps or repeats), and every chunk uses only indices announced
+earlier in the same stream. -/
+
+/-- **C11, stream clause, every source tree, all four modes** (`columns × final_source`).  Hypotheses = the property's
+quantifier: attached maps reference existing sources and names (`IdxHyp`: "consistent leaf maps"), and so do the maps an earlier
+call left in the caches of this tree (`StoreIdx`; vacuous on cold caches); distinct CachedSource nodes own distinct caches.
+PARTIAL in one place: for a SourceMapSource *with an inner map* (the combinator of C09) the clause is a hypothesis (inside
+`IdxHyp`), decided by correspondence + oracle. -/
+theorem c11_stream_decl (s : Src) (o : Opts) (σ : Store) (hp : s.IdxHyp) (hn : s.ids.Nodup) (hs : StoreIdx σ s.cachedNodes) :
+    DeclOK 0 0 (s.stream o σ).1.evs := Src.stream_declOK s o σ hp hn hs
+
+/-- a ConcatSource needs nothing from its children: an index a child never announced is reported as unmapped, and the gaps of
+its translation tables alias only announced entries -/
+theorem c11_concat_decl (final : Bool) (children : List SResult) : DeclOK 0 0 (concatStream final children).evs :=
+  concatStream_declOK final children
+
+/-- a ReplaceSource keeps the property of its inner stream (names are renumbered densely, also those added by replacements) -/
+theorem c11_replace_decl (sorted : List Repl) (inner : SResult) (h : DeclOK 0 0 inner.evs) : DeclOK 0 0 (replaceStream sorted inner).evs :=
+  replaceStream_declOK sorted inner h
+
+/-- the map-driven splitters, all four modes, for every map that references existing sources / names -/
+theorem c11_sourcemap_decl (t : Text) (sm : SMap) (o : Opts) (h : MapIdxOK sm) : DeclOK 0 0 (streamSM t sm o).evs :=
+  streamSM_declOK t sm o h
+
+/-! ## the map clause: indices inside the tables -/
+
+/-- **every source and name index of a map built by `get_map` lies inside its `sources` / `names` tables**, for any stream that
+announces before use (hence, by `c11_stream_decl`, for the final-mode stream of every tree); `small` / `linesOK` are the value
+range and line monotonicity under which the codec round trip of C12 holds. -/
+theorem c11_map_indices (evs : List Ev) (hd : DeclOK 0 0 evs) (hs : ∀ m ∈ chunkMs evs, m.small) (hl : linesOK 1 (chunkMs evs))
+    (sm : SMap) (h : mapOfEvs true evs = some sm) :
+    ∀ m ∈ decode sm.mappings, ∀ o, m.orig = some o → o.src < sm.sources.length ∧ ∀ k, o.name = some k → k < sm.names.length :=
+  mapOfEvs_idxOK evs hd hs hl sm h
+
+/-- non-vacuity: a stream that announces one source and one name and uses them; and one that uses a name it never announced -/
+example : DeclOK 0 0 [.source 0 [97] none, .name 0 [110], .chunk (some [120]) ⟨1, 0, some ⟨0, 1, 0, some 0⟩⟩] := by
+  simp [DeclOK]
+example : ¬ DeclOK 0 0 [.source 0 [97] none, .chunk (some [120]) ⟨1, 0, some ⟨0, 1, 0, some 0⟩⟩] := by
+  simp [DeclOK]
 
 end Rs
